@@ -72,7 +72,11 @@ Fixpoint c09_follow (k : hub_case) (c : cons) (was_ready : bool) (seen : list (b
              received so far, to the height it declares as LIB *)
           (negb was_ready || ho_ready o) &&
           (negb (ho_ready o && negb was_ready) ||
-           let recv := offered seen' in
+           (* W1: "through RECEIVED blocks" - of the blocks offered so far only those the hub holds at this instant
+              (GetBlockByHash) count; a pass that was offered but never run, or blocks under its start block, do not *)
+           let recv := match ho_ans o with
+                       | a :: _ => filter (fun x => memN (bid x) (a_stored a)) (offered seen')
+                       | [] => offered seen' end in
            match ancestor_at (S (length recv)) recv b (blib b) with Some _ => true | None => false end) &&
           (* not ready: no head, lowest is 0 (the property says nothing about snapshots before readiness) *)
           (ho_ready o || ((ho_lowest o =? 0) && match ho_head o with None => true | Some _ => false end)) &&
@@ -83,9 +87,14 @@ Fixpoint c09_follow (k : hub_case) (c : cons) (was_ready : bool) (seen : list (b
             | _, _ => false end &&
             forallb (fun a =>
                let canon := rev (cs_stack c') in
-               let servable := existsb (fun x => (bnum x =? a_start a) && (ho_lowest o <=? bnum x)) canon in
+               (* W1: "retained" is what the hub holds (GetBlockByHash), not what LowestBlockNum says; the reported lowest number
+                  is then checked against it: it is the number of a retained canonical block (and, by the clause above, served
+                  when asked - the harness always asks at it), and nothing below it is served *)
+               let servable := existsb (fun x => (bnum x =? a_start a) && memN (bid x) (a_stored a)) canon in
+               existsb (fun x => (bnum x =? ho_lowest o) && memN (bid x) (a_stored a)) canon &&
                if a_kind a =? 2 then
                  Bool.eqb (a_served a) servable &&
+                 (negb (a_start a <? ho_lowest o) || negb (a_served a)) &&
                  (negb (a_served a) ||
                   let exp := drop_until_num (a_start a) canon in
                   let nfin := cs_nf c' in
@@ -98,12 +107,17 @@ Fixpoint c09_follow (k : hub_case) (c : cons) (was_ready : bool) (seen : list (b
                                     match cs_stack c' with top :: _ => ref_eqb (ehead e) (bref top) | [] => false end &&
                                     (rn (elib e) <=? bnum (eblk e))) (a_events a))
                else
-                 negb (a_served a) ||
+                 (* W1: a ready hub may refuse a with-forks request only when it retains no block at or above the number *)
+                 (a_served a ||
+                  forallb (fun id => match lookup id (universe_of k) with
+                                     | Some x => negb (a_start a <=? bnum x)
+                                     | None => true end) (a_stored a)) &&
+                 (negb (a_served a) ||
                  (nondecreasing (a_forks a) && nodupN (ids (a_forks a)) &&
                   forallb (fun x => (a_start a <=? bnum x) && memN (bid x) (a_stored a)) (a_forks a) &&
                   forallb (fun id => match lookup id (universe_of k) with
                                      | Some x => negb (a_start a <=? bnum x) || memN id (ids (a_forks a))
-                                     | None => true end) (a_stored a)))
+                                     | None => true end) (a_stored a))))
                (ho_ans o))) &&
           c09_follow k c' (ho_ready o) seen' l' os'
       end
